@@ -60,7 +60,9 @@ def run_child(script, d, backend, phase, marks, seed):
 
 
 def explore(tier='quick'):
-    pairs = [('serial', 'fork'), ('fork', 'serial')] if tier == 'quick' else [('serial', 'fork'), ('fork', 'spawn'), ('spawn', 'serial'), ('fork', 'fork')]
+    # task types are defined in the child SCRIPT (module __main__): under spawn the worker re-imports it as __mp_main__,
+    # so a first run with the spawn backend followed by any other backend is part of the quick tier as well
+    pairs = [('serial', 'fork'), ('fork', 'serial'), ('spawn', 'serial')] if tier == 'quick' else [('serial', 'fork'), ('fork', 'spawn'), ('spawn', 'serial'), ('fork', 'fork'), ('spawn', 'spawn')]
     n = 0
     for a, b in pairs:
         with tempfile.TemporaryDirectory() as top:
@@ -158,7 +160,7 @@ def main():
         res = dict(reproduced=False, error=traceback.format_exc()[-1500:])
     if a.obligation or True:
         if not a.obligation:
-            print(json.dumps([dict(name='c06:two-run-cache-hit', bounded=True, bound='2-4 backend pairs x 6 tasks, fresh interpreter; relative storage directory + chdir; 400 edge durations', violation=bool(res.get('reproduced')), witness=[res] if res.get('reproduced') else [])], default=str))
+            print(json.dumps([dict(name='c06:two-run-cache-hit', bounded=True, bound='3-5 backend pairs (incl. a spawn first run with task types defined in the __main__ script) x 6 tasks, fresh interpreter with another hash seed; relative storage directory + chdir; 400 edge durations', violation=bool(res.get('reproduced')), witness=[res] if res.get('reproduced') else [])], default=str))
         else:
             print(json.dumps(res, default=str))
     return 1 if res.get('reproduced') else 0
